@@ -21,7 +21,8 @@ def prop(pid, rule, note, extra=None):
 @prop("C10",
       rule="cases = texts (valid IBANs/BICs of every country, single-defect mutants, malformed texts) "
            "x decorated variants (random insertions of each of the \\s code points, ASCII case flips); "
-           "non-trivial = distinct (base, variant) pair whose variant differs from the base text",
+           "non-trivial = distinct (base, variant) pair whose variant differs from the base text "
+           "; plus synthetic BICs with digits in every alphanumeric position, the formatted form compared with the parts joined by single spaces",
       note="partial tie: the theorems are about the model's `clean`; that every constructor sees its "
            "argument only through `clean` is validated by the correspondence streams")
 def c10(run):
@@ -134,7 +135,8 @@ def nontrivial_iban(f, a):
            "mutants over a wide alphabet (ASCII printable, all \\d and \\s code points, confusables, "
            "surrogates), malformed texts, whitespace/case decorated variants; sweeps: every country x BBAN "
            "position x alphabet sample, all 100 check-digit pairs per country, all 676 two-letter prefixes, "
-           "every length 0..40; non-trivial = distinct text not rejected for a short/garbled prefix",
+           "every length 0..40; non-trivial = distinct text not rejected for a short/garbled prefix "
+           "; plus the 20 code points a case mapping relates to ASCII at every position of letter-rich IBANs",
       note="the iff is proved for the model; model = implementation is validated by the correspondence "
            "streams, implementation = Spec is additionally compared directly on every text")
 def c01(run):
@@ -232,7 +234,8 @@ def spec_lines(ops):
 # --------------------------------------------------------------------------- C02
 @prop("C02",
       rule="per country: structure-conforming BBANs (random, and with registry bank codes) -> from_bban, "
-           "plus all 100 check-digit pairs around each; non-trivial = distinct (country, BBAN, pair)",
+           "plus all 100 check-digit pairs around each; non-trivial = distinct (country, BBAN, pair) "
+           "; plus BBANs carrying every alphanumeric word of the source's string literals at admissible offsets, and one BBAN text assembled under every country of its length",
       note="arithmetic proved for the model; BBAN quantified in the library's compact upper-case form")
 def c02(run):
     S = Streams(run.seed * 1000 + 2)
@@ -380,7 +383,8 @@ def c04(run):
            "single- and double-defect mutants of valid IBANs/BICs, with and without national validation / "
            "strict mode; the class of every outcome (including non-library exceptions) is compared with the "
            "model and every raised error class with the Spec's defect predicate; non-trivial = distinct text "
-           "that passes the first stage or is in the malformed stream",
+           "that passes the first stage or is in the malformed stream "
+           "; plus valid IBANs inside long whitespace (raw lengths 37..330), and one BBAN text under every pair of countries that admit it, national validation on, judged by the country's own rule",
       note="totality/soundness proved for the model for IBAN with and without national validation (every "
            "text, every registry; live_iban_bban_no_crash) and for BIC")
 def c05(run):
@@ -565,7 +569,8 @@ def national_expectation(S, entries, cc, b):
 @prop("C11",
       rule="valid IBANs of all countries (several per country, with registry banks) and registry BICs: all "
            "accessors compared with the model and with the published positions read from the live table; "
-           "from_bban(country, bban) round trip; non-trivial = distinct accepted object",
+           "from_bban(country, bban) round trip; non-trivial = distinct accepted object "
+           "; plus one BBAN text under every pair of countries that admit it (A, B, A, B), and texts with alias check digits (an accepted one must re-assemble to itself)",
       note="slicing identities proved for the model; IBAN-level accessors are checked against the BBAN-level "
            "ones on the implementation (they are proxies in the code)")
 def c11(run):
@@ -774,7 +779,8 @@ def boundary_sweep(S, r, cc, natref, tries=500):
            "computed by the harness' own reference (accept side), the same with the check field changed, and "
            "random ones, through IBAN(validate_bban=True), validate(True) and bban.validate_national_checksum(); "
            "every other country: valid IBANs with national validation on; non-trivial = distinct BBAN with "
-           "valid IBAN check digits",
+           "valid IBAN check digits "
+           "; plus the translator's probe inputs as whole BBANs, one BBAN text under every pair of countries that admit it, and the same digits as the declared fields of different national countries",
       note="published-rule equivalence proved in Lean for all 22 countries (positional Spec with the weights "
            "written out; live layout obligations); tools/natref.py is a second, independent reading of the rules "
            "used by the failing-input search; live_probes_reproduced is kernel-checked correspondence on "
@@ -1103,7 +1109,8 @@ def expected_lookup(entries, cc, code):
            "22,753), unlisted pairs, all/sampled registry BICs (reverse lookup), IBANs around listed and "
            "unlisted banks; plus synthetic registries (ties, empty and null BICs, empty bank codes, "
            "non-primary-first order) installed into the library through its own index builder; "
-           "non-trivial = distinct lookup",
+           "non-trivial = distinct lookup "
+           "; plus one BBAN text under every pair of countries that admit it, keys of registry entries that lack an expected field, and seeded pinned draws in small-registry countries before all their lookups",
       note="theorems are for every registry; `RegistryBicsOk` for the bundled one is a C17 obligation")
 def c12(run):
     from realops import registry_lines
@@ -1441,7 +1448,8 @@ SPEC_ITEM_RE = _re_mod.compile(r"(\d+)!([nace])")
       rule="obligations: one per country entry and per bank-entry chunk (kernel evaluation of the whole "
            "regenerated table); dynamic: an independent audit of every country and bank entry (exhaustive), and "
            "reachability - an IBAN is built around every distinct (country, bank code) key (quick: a sample; "
-           "thorough: all) and .bank/.bic are read back; non-trivial = distinct key",
+           "thorough: all) and .bank/.bic are read back; non-trivial = distinct key "
+           "; the BIC is read back too, and entries lacking an expected field are always built",
       note="reachability is proved (reachable / bank_reachable / live_rows_reachable) and additionally exercised on "
            "the real code; 'algorithms read only defined fields' is "
            "read as in DESIGN.md (an undeclared field reads the empty string)")
@@ -2011,7 +2019,8 @@ def registry_fingerprint():
            "lookup sequences around non-primary-first bank codes), each run in a fresh forked child; every "
            "outcome is compared with the outcome of the same call as the FIRST call of another fresh child; the "
            "registries are fingerprinted before/after and objects created before the history are re-read; "
-           "non-trivial = distinct (history, position)",
+           "non-trivial = distinct (history, position) "
+           "; plus revisit histories (X, Y, X on every algorithm object, Y sometimes failing) judged by the published rule, and one BBAN text under two countries (accessors, bank lookup, national check)",
       note="generic history theorem and its German-scratch instance proved; absence of hidden state in "
            "CPython/third-party modules and immutability of the registries are checked dynamically")
 def c15(run):
@@ -2169,7 +2178,8 @@ def readable_op(op):
            "04, 07, 14, 16, 23, 25; an accepting and a rejecting account each) and pairs of first lookups, run in "
            "two real threads under a deterministic line-level scheduler (sys.settrace hand-off inside schwifty/); "
            "all single-preemption schedules up to a budget, each in a forked child; a schedule whose results "
-           "differ from running alone is the replay; non-trivial = distinct (pair, schedule)",
+           "differ from running alone is the replay; non-trivial = distinct (pair, schedule) "
+           "; directed by the effect probe (only when it saw writes after import): mixed pairs of ordinary calls, a repeated call against a flood of 6000 distinct calls (preempted after each line), and cold-start pairs with every schedule in a fresh interpreter",
       note="non-interference proved for the per-thread-state model; effect probe ties it to the code; real "
            "preemption finer than a source line, the free-threaded build and third-party modules are not modelled")
 def c14(run):
@@ -2520,7 +2530,8 @@ def c13(run):
            "banks): every position >= 2 x same-kind replacement characters (quick: a sample of positions and "
            "characters, thorough: all) and every adjacent same-kind transposition incl. the country letters and "
            "the check-digit/BBAN boundary; interleaved with failing from_bban / generate calls; expected: "
-           "rejected; non-trivial = distinct mutated text",
+           "rejected; non-trivial = distinct mutated text "
+           "; plus all (country literal, check-digit literal) pairs of the source, Unicode decimal digits / non-ASCII and case-related letters as same-kind substitutions",
       note="detection theorems proved on the model's arithmetic for all lengths; model = code by the C01 "
            "correspondence and by this stream")
 def c03(run):
